@@ -112,6 +112,7 @@ def c12(ctx, rep):
 
 def c13(ctx, rep):
     _linit(ctx, rep)
+    rules_api.inject(ctx, rep)
     rules_api.features(ctx, rep)
     rules_api.keygen(ctx, rep)
     rules_api.encode_api(ctx, rep)
@@ -123,6 +124,7 @@ def c13(ctx, rep):
 
 def c15(ctx, rep):
     rules_own.ownership(ctx, rep)
+    rules_api.inject(ctx, rep)
     rules_effects.who_may_call(ctx, rep, cfgs=ctx.configs('path'))
     rules_api.create(ctx, rep)
     rules_api.decoders(ctx, rep)
@@ -167,6 +169,9 @@ def c18(ctx, rep):
 
 def c07(ctx, rep):
     rules_bounds.helper_contracts(ctx, rep)
+    rules_cmp.dispatch(ctx, rep)
+    rules_cmp.counter_pairing(ctx, rep)
+    rules_cmp.skip_normalised(ctx, rep)
     rules_tables.registry_and_frozen(ctx, rep)
     rules_tables.normalisation(ctx, rep)
     rules_tables.search_preconditions(ctx, rep)
@@ -244,6 +249,7 @@ def c14(ctx, rep):
 
 def c19(ctx, rep):
     rules_char.char_sites(ctx, rep)
+    rules_char.ir_signedness_diff(ctx, rep)
     rules_char.byte_order_tables(ctx, rep)
     return ('type-resolved AST rule: every promotion site of a plain-char value is classified by its consumer; relational comparisons '
             'between two plain chars are covered by the table condition (lists strictly increasing in both byte orders)')
